@@ -29,6 +29,7 @@ RULE = ("sequences of all classes incl. length 1-3, one charge class, no neutral
 RULE += ("; added after the mutation rounds: parents whose raw ratio lies in (1,1.1) with kappa() called before the move; the first cases of every shard are judged again at its end")
 RULE += ("; round 5: frozen containers with entries that are no positions (negative, at or beyond the end) for the shuffles")
 RULE += ("; round 6: parents written in the reduced charge alphabet (+, -, 0) for the backend shuffle and swaps")
+RULE += ("; round 7: entries that are no positions also in the frozen set of the charge swap; parents of 100-300 residues with half / a quarter / all but five positions frozen")
 EXHAUSTIVE = {"quick": False, "thorough": False}
 ASSUMPTIONS = [
     "frozen positions are 0-based indices (as the backend moves and the WL freeze-file define them)",
@@ -41,7 +42,7 @@ REQUIRED = {"all": ["move:full_shuffle", "move:swapRes", "move:swapRandChargeRes
                     "move:permute_cluster_charges", "move:get_shuffled_sequence", "move:get_permutant", "chains",
                     "hostile_tapes", "parent_dmax_cached", "parent_dmax_not_cached", "frozen_nonempty", "frozen_only_zero",
                     "frozen_all_charged", "uncharged_parents", "returned_parent_itself", "carried_dmax_checked",
-                    "ancestors_checked", "frozen_as_numpy_array", "frozen_list_with_repeats", "frozen_with_negative_entries", "reduced_alphabet_parents"]}
+                    "ancestors_checked", "frozen_as_numpy_array", "frozen_list_with_repeats", "frozen_with_negative_entries", "reduced_alphabet_parents", "long_parents_with_large_frozen_sets"]}
 NCASE = {"quick": 700, "thorough": 8000}
 DRAW_BUDGET = 20000
 BACKEND_MOVES = ["full_shuffle", "swapRes", "swapRandChargeRes", "permute_block_swap", "permute_cluster_charges"]
@@ -59,6 +60,11 @@ def cases(tier, seed):
         else:
             s = gen.rand_seq(rng, rng.choice(["idp", "polyampholyte", "polyelectrolyte", "short", "neutral_rich", "uniform", "single"]), hi=40)
         yield {"s": s, "o": rng.randrange(1 << 30), "hostile": (i % 4 == 0)}
+    # parents of 100-300 residues with half (or a quarter, or all but a few) of the positions frozen: index sets that no
+    # longer behave like small sets
+    for i in range(NCASE[tier] // 25):
+        s = gen.rand_seq(rng, rng.choice(["idp", "polyampholyte", "uniform"]), lo=100, hi=300)
+        yield {"s": s, "o": rng.randrange(1 << 30), "hostile": False, "big_frozen": rng.choice(["first_half", "last_half", "first_quarter", "all_but_five", "every_other"])}
     # parents written in the reduced charge alphabet (+, -, 0) that the backend class supports natively (the delta-max
     # search builds its candidates in it): the backend shuffle and swaps treat them like any other sequence
     for i in range(NCASE[tier] // 12):
@@ -166,6 +172,10 @@ def judge(case, rep, S):
     N = len(seq)
     rng = gen.sub_rng(case["o"], ID)
     frozen = make_frozen(rng, seq, rep)
+    if case.get("big_frozen"):
+        frozen = {"first_half": list(range(N // 2)), "last_half": list(range(N // 2, N)), "first_quarter": list(range(N // 4)),
+                  "all_but_five": sorted(set(range(N)) - set(rng.sample(range(N), 5))), "every_other": list(range(0, N, 2))}[case["big_frozen"]]
+        rep.cnt("long_parents_with_large_frozen_sets")
     hostile = None
     if case.get("hostile"):
         hostile = [[rng.choice(["lo", "hi"]) for _ in range(rng.randint(1, 6))] for _ in range(6)]
@@ -232,9 +242,11 @@ def judge(case, rep, S):
             rep.cnt("parent_dmax_not_cached")
         chain = [(cur, snap(cur))]
         nmoves = rng.randint(1, 30) if rng.random() < 0.6 else rng.randint(1, 3)
+        if case.get("big_frozen"):
+            nmoves = rng.randint(2, 4)
         rep.cnt("chains")
         for step in range(nmoves):
-            move = rng.choice(BACKEND_MOVES[:3] if reduced else BACKEND_MOVES)
+            move = rng.choice(BACKEND_MOVES[:3] if reduced or case.get("big_frozen") else BACKEND_MOVES)
             parent, psnap = chain[-1]
             try:
                 if move == "swapRes":
@@ -243,7 +255,8 @@ def judge(case, rep, S):
                     fr = []                      # explicit indices: the frozen set does not apply
                     ctx = "(swapRes(%d,%d), step %d of a chain from %s)" % (i, j, step, seq)
                 elif move == "swapRandChargeRes":
-                    child = parent.swapRandChargeRes(set(frozen)) if frozen or rng.random() < 0.5 else parent.swapRandChargeRes()
+                    fzs = with_non_positions(rng, set(frozen), N, rep)
+                    child = parent.swapRandChargeRes(fzs) if frozen or fzs or rng.random() < 0.5 else parent.swapRandChargeRes()
                     fr = frozen
                     ctx = "(frozen %r, step %d of a chain from %s)" % (frozen, step, seq)
                 else:
